@@ -145,7 +145,14 @@ def main(argv=None):
     printed = 0
     nondet = False
     rdir = os.path.join(env.VERIF, 'replays', pid)
+    order = []
+    seen_k = set()
     for v in total.violations:
+        if v['kind'] not in seen_k:
+            seen_k.add(v['kind'])
+            order.append(v)
+    order += [v for v in total.violations if all(v is not o for o in order)]
+    for v in order:
         key = jhash([v['kind'], v['case']])
         if key in seen:
             continue
@@ -177,7 +184,8 @@ def main(argv=None):
     print(f'{pid} tier={args.tier} seed={seed} states={total.states} transitions={total.transitions} '
           f'evaluations={total.evaluations} nontrivial={nt} outcomes={len(total.outcomes)} '
           f'violations={total.n_violations} known_hits={sum(total.known.values())} wall={wall:.1f}s'
-          + (f' CAPS={total.caps}' if total.caps else ''))
+          + (f' CAPS={total.caps}' if total.caps else '')
+          + (f' kinds={dict(total.vkinds)}' if total.vkinds else ''))
     return rc
 
 
